@@ -106,6 +106,12 @@ pub struct RotInner {
     a: CValue<F>,
 }
 
+impl RotInner {
+    pub fn with_sum(a: F) -> Self {
+        RotInner { a: CValue::known(a) }
+    }
+}
+
 impl midnight_proofs::plonk::Circuit<F> for RotInner {
     type Config = (midnight_proofs::plonk::Column<midnight_proofs::plonk::Advice>, midnight_proofs::plonk::Selector);
     type FloorPlanner = midnight_proofs::circuit::SimpleFloorPlanner;
@@ -380,7 +386,16 @@ pub enum Scn {
     Meta { n: usize, shape: usize, faults: Vec<MetaFault> },
     Inner { n: usize, shape: usize, fault: InnerFault, seed: u64 },
     /// the foreign-curve verifier gadget on one inner proof of a generated circuit
-    Gadget { spec: crate::gen_circuit::Spec, witness: crate::gen_circuit::Witness, blinding_seed: u64, variant: GVariant },
+    Gadget {
+        spec: crate::gen_circuit::Spec,
+        witness: crate::gen_circuit::Witness,
+        blinding_seed: u64,
+        variant: GVariant,
+        /// the inner circuit is the hand-written one (instance column read at two rotations, no
+        /// permutation argument) instead of the generated `spec`
+        #[serde(default)]
+        rot: bool,
+    },
 }
 
 #[derive(Clone, Debug, Serialize, Deserialize, PartialEq)]
@@ -475,7 +490,7 @@ impl Check for C20 {
                     5 => GVariant::Committed,
                     _ => GVariant::BadPoint(rng.usize(64)),
                 };
-                Scn::Gadget { spec, witness, blinding_seed: rng.u64(), variant }
+                Scn::Gadget { spec, witness, blinding_seed: rng.u64(), variant, rot: rng.chance(1, 4) }
             }
             7 if thorough || idx % 32 == 7 => {
                 // one aggregation per run: sampled
@@ -517,7 +532,7 @@ impl Check for C20 {
             Scn::Ipa { log_n, seed, faults, zeros } => run_ipa(log_n, seed, &faults, zeros, st),
             Scn::Meta { n, shape, faults } => run_meta(n, shape, &faults, st),
             Scn::Inner { n, shape, fault, seed } => run_inner(n, shape, &fault, seed, st),
-            Scn::Gadget { spec, witness, blinding_seed, variant } => gadget::run(&spec, &witness, blinding_seed, &variant, st),
+            Scn::Gadget { spec, witness, blinding_seed, variant, rot } => gadget::run(&spec, &witness, blinding_seed, &variant, rot, st),
         }
     }
     fn shrink(&self, scn: &Value, viol: &Viol) -> Vec<Value> {
@@ -538,9 +553,9 @@ impl Check for C20 {
                 _ => {}
             }
         }
-        if let Scn::Gadget { spec, witness, blinding_seed, variant } = &s {
+        if let Scn::Gadget { spec, witness, blinding_seed, variant, rot } = &s {
             if *variant != GVariant::Honest {
-                out.push(Scn::Gadget { spec: spec.clone(), witness: witness.clone(), blinding_seed: *blinding_seed, variant: GVariant::Honest });
+                out.push(Scn::Gadget { spec: spec.clone(), witness: witness.clone(), blinding_seed: *blinding_seed, variant: GVariant::Honest, rot: *rot });
             }
         }
         out.retain(|x| *x != s);
@@ -998,25 +1013,49 @@ mod gadget {
         }
     }
 
-    pub fn run(spec: &Spec, w: &Witness, blinding_seed: u64, variant: &GVariant, st: &mut Stats) -> Verdict {
+    pub fn run(spec: &Spec, w: &Witness, blinding_seed: u64, variant: &GVariant, rot: bool, st: &mut Stats) -> Verdict {
         use rand::SeedableRng;
-        let (vk, pk) = match catch(|| rayon::sim::isolated(1, || pipeline::keygen(spec))) {
-            Ok(Ok(x)) => x,
-            Ok(Err(e)) => return Verdict::Harness(format!("inner keygen failed: {e:?}")),
-            Err(p) => return Verdict::Harness(format!("inner keygen panicked at {}: {}", p.site(), p.msg)),
-        };
         let rng = rand_chacha::ChaCha20Rng::seed_from_u64(blinding_seed);
-        let (proof, log) = rayon::sim::isolated(1, || pipeline::prove(&pk, spec, std::slice::from_ref(w), 1, HashKind::Poseidon, rng));
-        let mut proof = match proof {
-            Ok(p) => p,
-            Err(_) => {
-                st.inc("gadget.inner_witness_unprovable");
-                return Verdict::Pass;
+        let (vk, k, proof, log, committed, plain) = if rot {
+            use midnight_proofs::plonk::{create_proof, keygen_pk, keygen_vk_with_k};
+            let k = 4;
+            let params = fixtures::srs(k);
+            let made = catch(|| {
+                rayon::sim::isolated(1, || {
+                    let vk = keygen_vk_with_k::<F, KZGCommitmentScheme<Bls12>, _>(&*params, &super::RotInner::default(), k)?;
+                    let pk = keygen_pk(vk.clone(), &super::RotInner::default())?;
+                    let mut r = Prng::new(blinding_seed, "rot").chacha("inst");
+                    let inst = vec![F::random(&mut r), F::random(&mut r)];
+                    let c = super::RotInner::with_sum(inst[0] + inst[1]);
+                    crate::tracing_t::clear_log();
+                    let mut t = crate::tracing_t::TracingTranscript::<PoseidonState<F>>::init();
+                    create_proof::<F, KZGCommitmentScheme<Bls12>, _, _>(&*params, &pk, &[c], 1, &[&[&[], &inst]], rng, &mut t)?;
+                    Ok::<_, Error>((vk, t.finalize(), crate::tracing_t::take_log(), inst))
+                })
+            });
+            match made {
+                Ok(Ok((vk, proof, log, inst))) => (vk, k, proof, log, C::identity(), inst),
+                Ok(Err(e)) => return Verdict::Harness(format!("hand-written inner circuit: {e:?}")),
+                Err(p) => return Verdict::Harness(format!("hand-written inner circuit panicked at {}: {}", p.site(), p.msg)),
             }
+        } else {
+            let (vk, pk) = match catch(|| rayon::sim::isolated(1, || pipeline::keygen(spec))) {
+                Ok(Ok(x)) => x,
+                Ok(Err(e)) => return Verdict::Harness(format!("inner keygen failed: {e:?}")),
+                Err(p) => return Verdict::Harness(format!("inner keygen panicked at {}: {}", p.site(), p.msg)),
+            };
+            let (proof, log) = rayon::sim::isolated(1, || pipeline::prove(&pk, spec, std::slice::from_ref(w), 1, HashKind::Poseidon, rng));
+            let proof = match proof {
+                Ok(p) => p,
+                Err(_) => {
+                    st.inc("gadget.inner_witness_unprovable");
+                    return Verdict::Pass;
+                }
+            };
+            let stmt = pipeline::statement(&vk, spec.k, w, 1);
+            (vk, spec.k, proof, log, stmt.committed[0], stmt.plain[0].clone())
         };
-        let stmt = pipeline::statement(&vk, spec.k, w, 1);
-        let mut committed = stmt.committed[0];
-        let mut plain = stmt.plain[0].clone();
+        let (mut proof, mut committed, mut plain) = (proof, committed, plain);
         // ---- the delivery fault
         let writes: Vec<_> = log.iter().filter(|e| e.op == Op::Write).collect();
         let scalars: Vec<_> = writes.iter().filter(|e| e.ty == "F").collect();
@@ -1050,7 +1089,7 @@ mod gadget {
             GVariant::Committed => committed += C::generator(),
             _ => {}
         }
-        st.nontrivial(prng::digest(format!("{}|{variant:?}", serde_json::to_string(spec).unwrap()).as_bytes()));
+        st.nontrivial(prng::digest(format!("{}|{rot}|{variant:?}", serde_json::to_string(spec).unwrap()).as_bytes()));
         // ---- off-circuit
         let off = catch(|| {
             rayon::sim::isolated(1, || {
@@ -1064,7 +1103,7 @@ mod gadget {
         };
         let fixed_bases = midnight_circuits::verifier::fixed_bases::<S>("inner_vk", &vk);
         let expected: Option<(Vec<F>, bool)> = off.ok().map(|dual| {
-            let params = fixtures::srs(spec.k);
+            let params = fixtures::srs(k);
             let valid = dual.clone().check(&params.verifier_params());
             let mut acc = Accumulator::<S>::from_dual_msm(dual, "inner_vk", &fixed_bases);
             acc.collapse();
